@@ -58,6 +58,12 @@ CHECKS = {
                      'Dbscan.tla transcribes create_clusters step by step; TLC checks contract and termination for every neighbourhood relation, order and minPts on 3 (quick) / 4 (thorough) points and prints every terminal state, which the real function must reproduce. '
                      'GenAlgo.tla enumerates every symmetric cost matrix over small alphabets for 1-5 nodes plus a seeded larger stratum (6-9 nodes, ties, zero-cost duplicates, collinear), every point multiset on a small line / grid plus seeded larger sets; every call runs under a deadline (termination).',
                 note='trusted: TLC; integer costs (float arithmetic exact); k <= number of points; hierarchy: nearest-medoid judged among clusters that split the same parent.'),
+    'C10': dict(category='model_checking', design_ref='DESIGN.md section 6 C10', technique='TLC enumerates abstract documents per rule family (GenValidation.tla), instantiated as pragmatic JSON and read by the real reader; every documented rule evaluated in a Must and a May reading by JudgeValidation.tla (Validation.tla)',
+                text='Validation.tla states the 38 documented rules E11xx-E16xx over an abstract document, each as Must (the text is unambiguous) and May (the text can be read that way). '
+                     'GenValidation.tla enumerates, over a valid base document, all combinations of the fields of one rule family at a time (window lists up to 3 incl. reversed / overlapping / touching / zero-length / malformed windows for every task kind, demand vectors x task kinds, ids, durations incl. -0.0, '
+                     'vehicle types / ids / costs / profiles, 1-3 shifts, break lists of all four variants x departure rescheduling, reloads x resources, relations x shift properties, objective lists incl. nested multi-objectives x job values / orders, location kinds x sparse indices x matrix sizes, degenerate collections). '
+                     'Expected per document: no panic, Must <= reported codes <= May, accepted iff no code, a document that breaks nothing under any reading is accepted.',
+                note='trusted: TLC; vlib/vinst.py is a mechanical instantiation of the abstract document. One family varies at a time; clustering, recharge, skills, limits, time-dependent matrices are not generated. Vacuity guard: every rule has a certain witness and a non-witness in the domain.'),
     'C12': dict(category='model_checking', design_ref='DESIGN.md section 6 C12', technique='TLC enumerates single-breach mutants of valid recorded solutions (Checker.tla over VrpModel), replayed into the bundled checker',
                 text='Positive: every solver-made solution that the specification (VrpModel!Valid) accepts must be accepted by CheckerContext::check. Negative: for a sample of those records TLC enumerates every (breach class, site) mutation '
                      '(misreported load, unknown / duplicated / dropped / split job, assigned and unassigned, arrival / distance / statistic mismatch, capacity below load, distance / duration / tour-size limit, broken relation, misplaced break), keeps those whose mutated pair the specification finds invalid, '
